@@ -406,7 +406,9 @@ impl<'o> P<'o> {
             ContG => self.t("\\G"),
             CondGroup(g, y, no) => {
                 let r = self.cond_ref(*g);
-                self.toks.push(format!("(?({})", r));
+                // the `)` that closes the group test is a token of its own: trivia may stand in front of it
+                self.toks.push(format!("(?({}", r));
+                self.t(")");
                 self.print(y, 1);
                 // always print the `|` when the yes-branch is an alternation-free but group-wrapped
                 // alternation could be mis-split (finding F13): an explicit `|` keeps the generator
@@ -432,7 +434,8 @@ impl<'o> P<'o> {
             GroupExists(g) => {
                 let r = self.cond_ref(*g);
                 // two tokens: white space (free-spacing mode) and comments may stand between the test and the `)`
-                self.toks.push(format!("(?({})", r));
+                self.toks.push(format!("(?({}", r));
+                self.t(")");
                 self.t(")");
             }
             Raw(pat, ci) => {
